@@ -740,6 +740,9 @@ class StmtMixin:
                 dec = False
             elif isinstance(b, range) and (len(b) == 0 or max(b[0], b[-1]) < lo or min(b[0], b[-1]) > hi):
                 dec = False
+            elif not isinstance(b, range) and all(isinstance(x, int) for x in b) and hi - lo <= (1 << 16) \
+                    and set(range(lo, hi + 1)) <= set(b):
+                dec = True          # a folded range / list that contains every value the field can take
             if dec is not None:
                 dec = dec == isinstance(op, ast.In)
                 return (st, None, True) if dec else (None, st, True)
